@@ -58,4 +58,12 @@ PROPS = {
         "rule": "cases: all strings over {quote, apostrophe, backslash, LF, CR, TAB, space, NUL, U+0001, DEL, #, a, e-acute, emoji} up to the length bound (exhaustive) + random long strings with runs of quotes up to 300; each string is one evaluation exercising up to 10 value styles and 7 key styles in 4+4 syntactic positions. distinct = the string; all are non-trivial",
         "assumptions": COMMON,
     },
+    "C11": {
+        "claimed": True,
+        "technique": "relational round-trip monitors over every number writer and parser, with exact 128-bit / big-integer arithmetic as the reference for range and rounding",
+        "level_text": "every writer (toml_write for i8..u128/f32/f64, toml_edit::Value::from, toml::Value Display, the four serializers) is run on boundary and random bit patterns; the text must lex for R as the same TOML type, and R and three real parse routes must read back the identical value (bit-for-bit, NaN by NaN-ness); literal spellings around the i64 and f64 range edges in all bases/signs are accepted iff exact arithmetic says in range; serde integer conversions in both directions must be exact or fail",
+        "level_note": "trusted: R's integer evaluation (128-bit) and exact decimal->double rounding (big integers, no use of str::parse::<f64>)",
+        "rule": "cases: i64 boundaries (all 2^k, 2^k+-1, min/max) exhaustively + random; i128 values around 2^63/2^64/2^127; f64 specials, 10^k and neighbours for every k, uniform bit patterns, uniform decimal exponents, integral floats up to 1e308; f32 bit patterns; literals at the range edges in bases 2/8/10/16 with signs, zeros, underscores; floats around the overflow threshold (exact midpoint between MAX and 2^1024 and its neighbours) with +,- and no sign; TOML integers into 12 narrower serde targets. distinct = value/literal hash; all non-trivial",
+        "assumptions": COMMON + ["f32: parse-back is judged by whether the read value lies in the rounding interval of the f32 (midpoints are exact doubles)"],
+    },
 }
